@@ -245,6 +245,21 @@ def hotspot(ctx, f, cfg):
                         lim_atoms |= at
                     elif r == "observed":
                         obs_atoms |= at
+    # the override replaces T whenever it is present: its value is compared with the in-flight count only - a side test on the value
+    # itself (e.g. "0 means not configured") lets the general threshold apply to a value that has an override
+    side = []
+    for bi, blk in enumerate(b.blocks):
+        if blk["cleanup"]:
+            continue
+        for s2 in blk["stmts"]:
+            if s2["k"] == "assign" and s2["rv"]["k"] == "bin" and s2["rv"]["op"] in D.CMP_OPS and not s2.get("exp"):
+                aa, ab = sl.of_operand(s2["rv"]["a"]), sl.of_operand(s2["rv"]["b"])
+                for mine, other in ((aa, ab), (ab, aa)):
+                    if any_atom(mine, "field:Rule.specific_items") and not any_atom(mine, "field:ParamsMetric.concurrency_counter") and cls(other) != "observed":
+                        side.append(b.loc(bi))
+    ctx.instance("C05.hs-decision/override-unconditional", b.path, {"side_tests_on_the_override_value": sorted(set(side))}, "the override value is only compared with the in-flight count", not side, cfg)
+    if side:
+        ctx.violation("C05.hs-decision", "C05.hs-decision|override-conditional", "a per-value override is used only under a test on its own value (%s): for the other values of the override the general threshold applies although an override exists" % sorted(set(side)), b.loc(), config=cfg)
     ok = any_atom(lim_atoms, "field:Rule.specific_items") and any_atom(lim_atoms, "field:Rule.threshold")
     ctx.instance("C05.hs-decision/limit-sources", b.path, sorted(short(a) for a in lim_atoms if a.startswith("field:")), ["Rule.specific_items", "Rule.threshold"], ok, cfg)
     if not ok:
